@@ -103,6 +103,22 @@ Theorem C15_fresh_complex : forall fuel s c kw ca caa s' n,
     forall fuel k, resolve_f (S fuel) (cl s') n k = fresh_lookup s c kw fuel k.
 Proof. exact fresh_complex. Qed.
 
+(** Mandatory(cls) of any kind of class: the new class has min_occurs = 1 and is not nillable *)
+Theorem C15_mandatory_is_mandatory : forall fuel s c s' n,
+  inv s -> mandatory fuel s c = ROk (s', n) ->
+  forall f, resolve_f (S f) (cl s') n K_MIN_OCCURS = Some (VInt 1) /\
+            resolve_f (S f) (cl s') n K_NULLABLE = Some (VBool false).
+Proof. exact mandatory_attrs. Qed.
+
+(** Array(T, **kw) / Iterable(T, **kw): exactly one member, of type T or a class customized from
+    T; the array carries kw over the attributes of Array / Iterable *)
+Theorem C15_array_shape : forall s base t kw s' n,
+  inv s -> make_array s base t kw = ROk (s', n) ->
+  exists member ser,
+    fields_of s' n = [(member, ser)] /\ root_of s' ser = root_of s t /\
+    forall f k, resolve_f (S f) (cl s') n k = fresh_lookup s base kw f k.
+Proof. exact array_shape. Qed.
+
 (** customize() without child attributes: the same field table (same names, same order, the very
     same field types) and the same parent *)
 Theorem C15_customize_keeps_fields : forall s c kw s' n,
@@ -286,6 +302,20 @@ Example C15_ex_evolution_order :
     keys (fields_of s2 5) = [t_a; t_K; t_b; t_z] /\ keys (fields_of s2 12) = [t_a; t_K; t_b; t_z] /\
     keys (fields_of s2 8) = [t_z].
 Proof. vm_compute. eexists. eexists. repeat split. Qed.
+
+Example C15_ex_mandatory_array :
+  match make_array ex0 1 3 [(K_MIN_OCCURS, VInt 2)] with
+  | ROk (s1, a) =>
+    match mandatory FUEL s1 a with
+    | ROk (s2, m) =>
+      Some (a, m, resolve s2 m K_MIN_OCCURS, resolve s2 a K_MIN_OCCURS,
+            map snd (fields_of s2 m), map snd (fields_of s2 a),
+            resolve s2 8 K_MIN_OCCURS, resolve s2 6 K_MIN_OCCURS)
+    | _ => None
+    end
+  | _ => None
+  end = Some (5, 7, Some (VInt 1), Some (VInt 2), [8], [6], Some (VInt 1), Some (VInt 0)).
+Proof. vm_compute. reflexivity. Qed.
 
 Example C15_ex_order :
   keys (flat ex1 8) = [t_a; t_b; t_z] /\ keys (fields_of ex1 8) = [t_z] /\
